@@ -1,7 +1,7 @@
 (* Dispatch table: entry name -> model entry point.  The harness names the entry on every
    case line; the same table is used by the extracted driver and by the kernel cross-check. *)
 Require Import Gengo.Base.Str Gengo.Base.Sexp.
-Require Gengo.Model.Tags Gengo.Model.JsonTag Gengo.Model.Tracker Gengo.Model.Namer Gengo.Model.Order Gengo.Model.ImportBoss Gengo.Model.Exec Gengo.Model.Snippet Gengo.Model.Files Gengo.Model.Universe Gengo.Model.Comments Gengo.Model.RawNamer Gengo.Model.BuildTags.
+Require Gengo.Model.Tags Gengo.Model.JsonTag Gengo.Model.Tracker Gengo.Model.Namer Gengo.Model.Order Gengo.Model.ImportBoss Gengo.Model.Exec Gengo.Model.Snippet Gengo.Model.Files Gengo.Model.Universe Gengo.Model.Comments Gengo.Model.RawNamer Gengo.Model.BuildTags Gengo.Model.Sets.
 
 Definition entries : list (string * (sexp -> option sexp)) := [
   ("C08.old", Tags.run_old);
@@ -44,7 +44,8 @@ Definition entries : list (string * (sexp -> option sexp)) := [
   ("C05.comments", Comments.run_comments);
   ("C05.pkgcomments", Comments.run_pkgcomments);
   ("C02.raw", RawNamer.run_raw);
-  ("C12.visible", BuildTags.run_visible)
+  ("C12.visible", BuildTags.run_visible);
+  ("C17.ops", Sets.run_sets)
 ]%string.
 
 Fixpoint find_entry (name : str) (l : list (string * (sexp -> option sexp))) : option (sexp -> option sexp) :=
